@@ -18,6 +18,7 @@ import (
 	"github.com/segmentio/kafka-go/protocol/apiversions"
 	"github.com/segmentio/kafka-go/protocol/createtopics"
 	"github.com/segmentio/kafka-go/protocol/deletetopics"
+	"github.com/segmentio/kafka-go/protocol/describegroups"
 	"github.com/segmentio/kafka-go/protocol/fetch"
 	"github.com/segmentio/kafka-go/protocol/findcoordinator"
 	"github.com/segmentio/kafka-go/protocol/heartbeat"
@@ -35,6 +36,8 @@ type jent struct {
 	key, ver int16
 	ktype    int8 // find-coordinator requests: the KeyType the broker decoded
 	magic    int8 // produce requests: the record format (RecordSet.Version) the broker decoded
+	groups   string // describe-groups requests: the groups named, hex, joined by "+"
+	client   string // the client id of the request header
 }
 
 type fcAnswer struct {
@@ -53,6 +56,7 @@ type fake struct {
 	brokers map[string]*fakeBroker // by "host:port"
 	md      *meta.Response         // what a metadata request is answered with
 	fc      [2]fcAnswer            // how find-coordinator is answered, per KeyType (0 group, 1 transaction)
+	gcoord  map[string]int32       // group coordinators by group name (they take precedence for KeyType 0)
 	mdMode  int                    // Metadata requests: 0 answered, 1 left unanswered until resume, 2 connection closed
 	mdFault int                    // Metadata requests received while mdMode != 0
 	resume  chan struct{}
@@ -60,7 +64,7 @@ type fake struct {
 	conns   []net.Conn
 }
 
-var e2eKeys = []int16{0, 1, 2, 3, 10, 12, 13, 16, 18, 19, 20, 22}
+var e2eKeys = []int16{0, 1, 2, 3, 10, 12, 13, 15, 16, 18, 19, 20, 22}
 
 func (f *fake) dial(ctx context.Context, network, address string) (net.Conn, error) {
 	f.mu.Lock()
@@ -88,12 +92,19 @@ func (f *fake) closeAll() {
 func (f *fake) serve(b *fakeBroker, conn net.Conn) {
 	defer conn.Close()
 	for {
-		ver, corr, _, msg, err := protocol.ReadRequest(conn)
+		ver, corr, clientID, msg, err := protocol.ReadRequest(conn)
 		if err != nil {
 			return
 		}
 		f.mu.Lock()
-		e := jent{broker: b.id, key: int16(msg.ApiKey()), ver: ver}
+		e := jent{broker: b.id, key: int16(msg.ApiKey()), ver: ver, client: clientID}
+		if q, ok := msg.(*describegroups.Request); ok {
+			l := make([]string, len(q.Groups))
+			for i, g := range q.Groups {
+				l[i] = nm(g)
+			}
+			e.groups = strings.Join(l, "+")
+		}
 		if q, ok := msg.(*findcoordinator.Request); ok {
 			e.ktype = q.KeyType
 		}
@@ -147,6 +158,8 @@ func (f *fake) answer(b *fakeBroker, msg protocol.Message, ver int16) protocol.M
 		a := f.fc[0]
 		if q.KeyType == 1 {
 			a = f.fc[1]
+		} else if n, ok := f.gcoord[q.Key]; ok {
+			a = fcAnswer{0, n}
 		}
 		r := &findcoordinator.Response{ErrorCode: a.err, NodeID: a.node}
 		r.Host, r.Port = hostOf(uint64(int64(a.node) + 16))
@@ -186,6 +199,17 @@ func (f *fake) answer(b *fakeBroker, msg protocol.Message, ver int16) protocol.M
 			r.Topics = append(r.Topics, rt)
 		}
 		return r
+	case *describegroups.Request:
+		// a broker answers for the groups it coordinates; NOT_COORDINATOR (16) for the others
+		r := &describegroups.Response{}
+		for _, g := range q.Groups {
+			rg := describegroups.ResponseGroup{GroupID: g, GroupState: "b" + zs(int64(b.id))}
+			if n, ok := f.gcoord[g]; !ok || n != b.id {
+				rg.ErrorCode = 16
+			}
+			r.Groups = append(r.Groups, rg)
+		}
+		return r
 	case *heartbeat.Request:
 		return &heartbeat.Response{}
 	case *leavegroup.Request:
@@ -223,6 +247,9 @@ func encJent(e jent) string {
 	}
 	if e.key == 0 {
 		s += ":" + zs(int64(e.magic))
+	}
+	if e.key == 15 {
+		s += ":" + e.groups
 	}
 	return s
 }
@@ -297,6 +324,7 @@ type e2eReq struct {
 	msg      protocol.Message
 	splitter bool
 	isMeta   bool
+	isDG     bool
 	fc       string
 	feat     string
 }
@@ -422,7 +450,7 @@ func runE2E(r *rand.Rand, scenario int) {
 	}
 	genReq := func(m *meta.Response, created *int) e2eReq {
 		rf := map[string]bool{}
-		switch x := r.Intn(14); {
+		switch x := r.Intn(16); {
 		case x < 3:
 			ts := e2eTps(r, m, false)
 			leaderFeat(kafka.VerifMakeLayout(m), ts, rf)
@@ -479,6 +507,38 @@ func runE2E(r *rand.Rand, scenario int) {
 			return e2eReq{enc: "t=" + zs(22) + ":" + nm("txn"), msg: &initproducerid.Request{TransactionalID: "txn", TransactionTimeoutMs: 1000}, fc: fc, feat: "txn," + ff}
 		case x == 12:
 			return e2eReq{enc: "lgs", msg: &listgroups.Request{}, splitter: true, fc: "-", feat: "listgroups"}
+		case x == 14 || x == 15:
+			// describe-groups naming 1-4 groups whose coordinators mostly differ
+			ng := 1 + r.Intn(4)
+			names := make([]string, ng)
+			gc := map[string]int32{}
+			var kv []string
+			distinct := map[int32]bool{}
+			for i := range names {
+				names[i] = fmt.Sprintf("dg%c", 'A'+rune((i*3+r.Intn(3))%26))
+				for j := 0; j < i; j++ {
+					if names[j] == names[i] {
+						names[i] += "x"
+					}
+				}
+				n := m.Brokers[r.Intn(len(m.Brokers))].NodeID
+				gc[names[i]] = n
+				distinct[n] = true
+				kv = append(kv, nm(names[i])+"="+zs(int64(n)))
+			}
+			f.mu.Lock()
+			f.gcoord = gc
+			f.mu.Unlock()
+			ff := fmt.Sprintf("describegroups,groups=%d", ng)
+			if len(distinct) > 1 {
+				ff += ",coordinators-differ"
+			}
+			hexNames := make([]string, ng)
+			for i, n := range names {
+				hexNames[i] = nm(n)
+			}
+			return e2eReq{enc: "dg=" + strings.Join(hexNames, ";"), msg: &describegroups.Request{Groups: names}, splitter: true, isDG: true,
+				fc: "k:" + strings.Join(kv, ";"), feat: ff}
 		default:
 			var names []string
 			known := topicNames(m)
@@ -522,6 +582,16 @@ func runE2E(r *rand.Rand, scenario int) {
 		if q.splitter {
 			sort.Strings(tr)
 			status = "-"
+		}
+		if q.isDG { // the merged answer: one entry per group, its error code and who answered
+			status = "err"
+			if err == nil {
+				var l []string
+				for _, g := range res.(*describegroups.Response).Groups {
+					l = append(l, nm(g.GroupID)+"="+zs(int64(g.ErrorCode))+"@"+g.GroupState)
+				}
+				status = dot(strings.Join(l, ";"))
+			}
 		}
 		return dot(strings.Join(tr, ",")) + "/" + status
 	}
